@@ -22,14 +22,27 @@
   run produce the same output, are checked by the correspondence oracle (interrupted vs uninterrupted runs); the
   per-interrupt theorem above is what each induction step needs (plus C09: user code never reads below x3000).
   The theorems themselves are in Lemmas/C10Core.lean (moved so that later modules can import them).
+  Session 5, whole runs (Lemmas/IntRun, namespace `NI`): `interrupted_run_eqv` / `interrupted_run_user` — a user-mode program
+  of non-TRAP instructions (non-strict, virtual traps) that is interrupted ANY number of times at ANY of its instruction
+  boundaries by handlers that restore what they use ends, after its n instructions, with the same registers, PC, PSR
+  (condition codes), flags and ALL of user memory as the uninterrupted run; if the uninterrupted program faults at its next
+  instruction so does the interrupted one, with the same error (`interrupted_fault_same`).  Ingredients: a relational
+  calculus for "a user-mode computation cannot tell states apart that differ only outside user space, in the devices, the
+  supervisor stack pointer and the bookkeeping" (`Rel2`, `step_eqv`: every instruction other than TRAP) and
+  `interrupt_keeps_user_state` (from `Rt.interrupt_transparent`: one interrupt leaves such a state).  Left to the
+  interrupted-vs-uninterrupted oracle: programs that execute TRAPs between interrupts, strict mode, and the comparison of
+  the display output.
 -/
 import Lc3V.Lemmas.C10Core
 import Lc3V.Lemmas.IntTransparent
+import Lc3V.Lemmas.IntRun
 namespace Lc3V.C10
 open Lc3V
 
 def obligations : List Lean.Name :=
   [``gate, ``taken_is_entry, ``pollStep_best, ``arbitration, ``key_order, ``enterCore_spec, ``sp_cells_distinct,
-   ``entry, ``rti_spec, ``rti_undoes_entry, ``Rt.handler_returns, ``Rt.interrupt_transparent]
+   ``entry, ``rti_spec, ``rti_undoes_entry, ``Rt.handler_returns, ``Rt.interrupt_transparent,
+   ``NI.Rel2.readMem, ``NI.Rel2.writeMem, ``NI.Rel2.execInstr, ``NI.fetchExec_eqv, ``NI.step_eqv, ``NI.interrupt_gives_eqv,
+   ``NI.interrupted_run_eqv, ``NI.interrupted_fault_same, ``NI.interrupt_keeps_user_state, ``NI.interrupted_run_user]
 
 end Lc3V.C10
